@@ -346,6 +346,13 @@ def _engine_fault(exc):
     if last is None:
         return False
     fn = last.tb_frame.f_code.co_filename
+    if isinstance(exc, TypeError):
+        import re
+
+        # a call that does not fit the SIGNATURE of a prelude object (a keyword the model does not know, e.g.
+        # np.linspace(..., dtype=...)) is raised in the caller's frame: a gap of the model, not behaviour of the code
+        if re.match(r"^(_NP|_MA|_Random|_XR|_PD|Sym\w+|\w*Proxy|\w*Stub)\.\w+\(\) (got an unexpected keyword argument|takes|missing)", str(exc)):
+            return True
     if "site-packages" in fn or "/lib/python3" in fn:
         # raised inside a real third-party / stdlib routine: a proxy leaked past the prelude.
         # (scikit-learn's NotFittedError from check_is_fitted is genuine behaviour.)
